@@ -58,6 +58,15 @@ def rich_content(c):
     return ds
 
 
+def grouped_content(c):
+    """Only GROUP variables (no root-level variable or coordinate), and a structure that depends on the content: another
+    variable name and another dimension length - overwriting a period has to replace the file, not add to it."""
+    import xarray as xr
+    n = 2 + c
+    return xr.Dataset({"geo/lat": ("geo/x", np.arange(n, dtype="float64") * c),
+                       "data/tb_ch%d" % c: ("data/y", np.arange(n + 1, dtype="int64") + 10 * c)})
+
+
 class Kind:
     def __init__(self, name, ext, make, same, handler=None, read_args=None, write_args=None):
         self.name, self.ext, self.make, self.same, self.handler, self.read_args = name, ext, make, same, handler, read_args
@@ -133,6 +142,7 @@ KINDS = {
     "nc": Kind("nc", ".nc", dataset_content, ds_same),
     "nc.gz": Kind("nc.gz", ".nc.gz", dataset_content, ds_same),
     "ncrich": Kind("ncrich", ".nc", rich_content, ds_same),
+    "ncgrp": Kind("ncgrp", ".nc", grouped_content, ds_same),
     "csv": Kind("csv", ".csv", dataset_content, ds_same, None, {"index_col": 0}),
     "txt.bz2": Kind("txt.bz2", ".txt.bz2", dataset_content, ds_same, None, {"index_col": 0}),
 }
@@ -152,6 +162,7 @@ CONFIGS = [
     ("full", "full", 2, 0, "pkl", "pkl", False),           # day-of-year spelling of start and end across New Year
     ("full", "full", 1, 2, "nc", "nc", False),
     ("full", "noend", 0, 1, "pkl-post", "pkl-post", False),   # post_reader is applied on every read, and only on reads
+    ("full", "full", 0, 1, "ncgrp", "ncgrp", False),          # group-only NetCDF data whose structure changes when a period is overwritten
     ("full", "full", 0, 1, "pkl-args", "pkl-bound", True),    # read_args / write_args reach plain and bound-method user functions
     ("full", "noend", 1, 0, "pkl-bound", "pkl-bound", False),
 ]
